@@ -71,7 +71,31 @@ def skip_lines(path):
     return skip
 
 
+def stmt_deletions(fname):
+    """single-line simple statements (assignments, augmented assignments, calls) inside
+    function bodies, each replaced by `pass`: the 'forgot to do X' slip"""
+    path = os.path.join(REPO, "lbfgsb", fname)
+    src = open(path).read()
+    lines = src.splitlines(True)
+    skip = skip_lines(path)
+    tree = ast.parse(src)
+    for fn in ast.walk(tree):
+        if not isinstance(fn, ast.FunctionDef) or fn.name.startswith("display"):
+            continue
+        for node in ast.walk(fn):
+            if isinstance(node, (ast.Assign, ast.AugAssign, ast.Expr, ast.AnnAssign)) and \
+                    node.lineno == node.end_lineno and node.lineno not in skip:
+                if isinstance(node, ast.Expr) and not isinstance(node.value, ast.Call):
+                    continue
+                line = lines[node.lineno - 1]
+                indent = line[:len(line) - len(line.lstrip())]
+                yield node.lineno, "DELETE", line, indent + "pass\n"
+
+
 def mutants(fname):
+    if os.environ.get("MUT_MODE") == "delete":
+        yield from stmt_deletions(fname)
+        return
     path = os.path.join(REPO, "lbfgsb", fname)
     lines = open(path).read().splitlines(True)
     skip = skip_lines(path)
